@@ -107,7 +107,10 @@ def bounds_cases(draw, tier, finite=True, pins=False):
     n = draw(st.integers(1, 4) if (symbolic or not finite) else st.one_of(st.integers(1, 6), st.just(12)))
     if symbolic and finite and draw(st.integers(0, 9)) == 0:
         n = 11
-    val = _dec15() if symbolic else st.one_of(_dec15(), st.floats(-1e6, 1e6, allow_nan=False), sg.xvalues('huge'))
+    # (the symbolic variant compiles the bounds text as is since 1c1cd8c, so bounds that need 17 significant digits
+    # - 1/3, 0.1+0.2, arbitrary floats - are in the domain of both variants)
+    val = st.one_of(_dec15(), st.floats(-1e6, 1e6, allow_nan=False), st.floats(-1.0, 1.0, allow_nan=False),
+                    st.sampled_from([1.0 / 3.0, 2.0 / 3.0, 0.1 + 0.2, -1.0 / 3.0, math.pi, 1e-7 / 3.0]), sg.xvalues('huge'))
     lo, hi = [], []
     for j in range(n):
         a, b = sorted([float(draw(val)), float(draw(val))])
@@ -221,6 +224,22 @@ def _build(case, text):
     return solvers, generate_constraint
 
 
+def _interfere(case, text):
+    """after the constraint under test was compiled, the same text is compiled once more with other values for the same
+    local names and a coarse tol/rel, and that second constraint is applied once: functions compiled earlier must not
+    notice (each compile has its own namespace)"""
+    from mystic.symbolic import generate_solvers, generate_constraint
+    locs2 = {}
+    for k_, v_ in (case.get('locals') or {}).items():
+        locs2[k_] = (v_ * -3.0 + 7.5) if isinstance(v_, (int, float)) else v_
+    kw2 = sg.parser_kwargs(case['scheme'], case['n'], case['pass_nvars'], locs2, 0.5, 0.25)
+    try:
+        c2 = generate_constraint(generate_solvers(text, **kw2))
+        c2([0.5] * case['n'])
+    except Exception:
+        pass
+
+
 def _label_text(ctx, case, trees_, text):
     n = case['n']
     ctx.label(sg.scheme_label(case['scheme'], n), 'tight' if case['tight'] else 'spaced',
@@ -251,6 +270,7 @@ def run_relation(case, ctx):
     solvers, generate_constraint = _build(case, text)
     ctx.expect(len(solvers) == 1, 'C13.one_solver_per_line', lambda: dict(text=text, n=len(solvers)))
     c = generate_constraint(solvers)
+    _interfere(case, text)
     _label_text(ctx, case, [rhs], text)
     ctx.label('cmp:' + cmp)
     for p in case['points']:
@@ -314,6 +334,7 @@ def run_system(case, ctx):
     else:
         from mystic.constraints import and_, or_
         c = generate_constraint(solvers, join=and_ if join == 'and' else or_)
+    _interfere(case, text)
     _label_text(ctx, case, [r['rhs'] for r in rels], text)
     ctx.label('join:%s' % join, 'lines:%d' % len(rels), 'extra:' + (case['extra'] or 'none'))
     lhs = set(r['i'] for r in rels)
